@@ -61,6 +61,68 @@ theorem select_sublist (l : Logic) (crit : List (α → Bool)) (pts : List α) :
       intro acc; induction pts generalizing acc <;> simp_all
     simp [this]
 
+/-- selection commutes with concatenation of the sources -/
+theorem select_append_pts (l : Logic) (crit : List (α → Bool)) (a b : List α) :
+    selectPts l crit (a ++ b) = selectPts l crit a ++ selectPts l crit b := by
+  cases l with
+  | AND => simp [select_AND]
+  | OR => simp [select_OR]
+  | other =>
+    have : ∀ (pts acc : List α), pts.foldl (fun sel _ => sel) acc = acc := by
+      intro pts acc; induction pts generalizing acc <;> simp_all
+    simp [selectPts, this]
+
+/-- selecting with `c₁ ++ c₂` (AND) is selecting with `c₁` and then with `c₂` -/
+theorem select_AND_append_crit (c₁ c₂ : List (α → Bool)) (pts : List α) :
+    selectPts .AND (c₁ ++ c₂) pts = selectPts .AND c₂ (selectPts .AND c₁ pts) := by
+  simp only [select_AND, List.filter_filter, List.all_append]
+  congr 1; funext p; exact Bool.and_comm _ _
+
+/-- selecting with `c₁ ++ c₂` (OR) returns a point iff one of the two separate selections does -/
+theorem select_OR_append_crit (c₁ c₂ : List (α → Bool)) (pts : List α) (p : α) :
+    p ∈ selectPts .OR (c₁ ++ c₂) pts ↔ p ∈ selectPts .OR c₁ pts ∨ p ∈ selectPts .OR c₂ pts := by
+  simp only [select_OR, List.mem_filter, List.any_append, Bool.or_eq_true]
+  tauto
+
+/-- the order in which the criteria are listed does not matter -/
+theorem select_perm_crit (l : Logic) {c₁ c₂ : List (α → Bool)} (h : c₁.Perm c₂) (pts : List α) :
+    selectPts l c₁ pts = selectPts l c₂ pts := by
+  cases l with
+  | AND =>
+    rw [select_AND, select_AND]; congr 1; funext p
+    rw [Bool.eq_iff_iff]; simp only [List.all_eq_true]
+    exact ⟨fun hh c hc => hh c (h.mem_iff.2 hc), fun hh c hc => hh c (h.mem_iff.1 hc)⟩
+  | OR =>
+    rw [select_OR, select_OR]; congr 1; funext p
+    rw [Bool.eq_iff_iff]; simp only [List.any_eq_true]
+    exact ⟨fun ⟨c, hc, hp⟩ => ⟨c, h.mem_iff.1 hc, hp⟩, fun ⟨c, hc, hp⟩ => ⟨c, h.mem_iff.2 hc, hp⟩⟩
+  | other => rfl
+
+/-- selecting twice with the same criteria is selecting once -/
+theorem select_idem (l : Logic) (crit : List (α → Bool)) (pts : List α) :
+    selectPts l crit (selectPts l crit pts) = selectPts l crit pts := by
+  cases l with
+  | AND => simp [select_AND, List.filter_filter]
+  | OR => simp [select_OR, List.filter_filter]
+  | other =>
+    have : ∀ (pts acc : List α), pts.foldl (fun sel _ => sel) acc = acc := by
+      intro pts acc; induction pts generalizing acc <;> simp_all
+    simp [selectPts, this]
+
+/-- no criteria: AND keeps every point, OR keeps none (Python: `all([])` / `any([])`) -/
+theorem select_no_crit (pts : List α) : selectPts .AND [] pts = pts ∧ selectPts .OR [] pts = [] := by
+  simp [select_AND, select_OR]
+
+/-- with at least one criterion, whatever AND returns OR returns too -/
+theorem select_AND_sub_OR (crit : List (α → Bool)) (hc : crit ≠ []) (pts : List α) :
+    (selectPts .AND crit pts).Sublist (selectPts .OR crit pts) := by
+  rw [select_AND, select_OR]
+  apply List.monotone_filter_right
+  intro p hp
+  obtain ⟨c, cs, rfl⟩ := List.exists_cons_of_ne_nil hc
+  simp only [List.all_cons, Bool.and_eq_true] at hp
+  simp [hp.1]
+
 /-- the empty selection is a legal result -/
 theorem select_unsat (crit : List (α → Bool)) (pts : List α)
     (h : ∀ p ∈ pts, crit.all (fun c => c p) = false) : selectPts .AND crit pts = [] := by
